@@ -433,6 +433,14 @@ def check_pack(ctx, ci, bits='derive'):
         elif 'not self.iam_last' in gt:
             label = 'earlier member'
         else:
+            emits = [e for e in p.effects if e.kind == 'call' and canon(e.call.func) == 'self.I.pack']
+            if 'self.iam_first' in gt and emits:
+                # the first member of a run of several is not the last: the later members have not merged yet
+                ctx.violation(rule, fi, 'path [%s]: %s' % ('; '.join(sorted(gt))[:80], emits[0].text()[:60]), 'the shared Int is emitted by the first member of the run, before the later members merged their bits', emits[0].lineno, clause='d', witness=True)
+                continue
+            if 'not self.iam_first' in gt and not emits and not any('iam_last' in g for g in gt):
+                ctx.violation(rule, fi, 'path [%s]: nothing emitted' % '; '.join(sorted(gt))[:80], 'no member after the first emits the shared Int: the last member of a run of several never writes the merged bits', fi.node.lineno, clause='d', witness=True)
+                continue
             ctx.undecided(rule, fi, 'path [%s]' % '; '.join(sorted(gt))[:120], 'cannot tell whether this is the last member of the run or an earlier one (the path does not test iam_last)', fi.node.lineno, clause='d')
             continue
         st_ = [e for e in p.effects if e.kind == 'setattr' and canon(e.obj) == 'pkt']
@@ -511,6 +519,8 @@ def check_init(ctx, ci):
         mentions = any(isinstance(n, ast.Attribute) and n.attr == 'iam_first' for n in ast.walk(fi.node))
         if mentions:
             ctx.violation(rule, fi, 'Bits.init', 'no path initialises the shared slot for the first member', fi.node.lineno, clause='f')
+        elif not any(isinstance(n, ast.Attribute) and n.attr == 'I' and canon(n.value) == 'self' for n in ast.walk(fi.node)):
+            ctx.violation(rule, fi, 'Bits.init', 'init never touches the shared slot (self.I): the read-modify-write of the first pack reads an attribute nobody set', fi.node.lineno, clause='f', witness=True)
         else:
             ctx.undecided(rule, fi, 'Bits.init', 'the method does not test iam_first: cannot tell which path is the first member\'s', fi.node.lineno, clause='f')
 
